@@ -215,14 +215,23 @@ class Ctx(Acc):
                 with open(os.path.join(rdir, "test_%s_%s.py" % (self.pid, h)), "w") as f:
                     f.write("# standalone reproduction of %s (%s)\n# run: LD_LIBRARY_PATH=<icu> /venv/bin/python -m pytest %s\n%s\n" % (
                         key, what.replace("\n", " ")[:200], "replays/test_%s_%s.py" % (self.pid, h), py))
-            if shown < 40:
+            if shown < 15:
                 print("VIOLATION property=%s replay=%s" % (self.pid, path))
                 print("    detail: %s :: %s" % (key, what.replace("\n", " ")[:300]))
                 shown += 1
         if len(unlisted) > shown or self.more_violations:
             print("... %d further violation keys not shown" % (len(unlisted) - shown + self.more_violations))
-        self.write_evidence(len(unlisted), len(hit))
-        return 1 if unlisted else 0
+        overflow = self.more_violations > 0 and not unlisted
+        if overflow:
+            # keys beyond the stored ones could not be matched against known findings: never let them hide
+            os.makedirs(rdir, exist_ok=True)
+            path = os.path.join(rdir, "%s-overflow.json" % self.pid)
+            with open(path, "w") as f:
+                json.dump({"property": self.pid, "key": "%s/overflow" % self.pid,
+                           "what": "%d violation keys beyond the %d stored ones were not classified" % (self.more_violations, MAX_KEYS)}, f)
+            print("VIOLATION property=%s replay=%s" % (self.pid, path))
+        self.write_evidence(len(unlisted) + (1 if overflow else 0), len(hit))
+        return 1 if (unlisted or overflow) else 0
 
     def write_evidence(self, n_viol, n_known):
         parts = {}
